@@ -465,3 +465,10 @@ func (c *Client) WaitIn(n int, timeout time.Duration) bool {
 		}
 	}
 }
+
+// FrameTypes returns the websocket message types of all frames received so far.
+func (w *WSConn) FrameTypes() []int {
+	w.mu.Lock()
+	defer w.mu.Unlock()
+	return append([]int(nil), w.Frames...)
+}
